@@ -326,6 +326,10 @@ func (l *Ledger) RunClock(stop <-chan struct{}, extraIdle func() bool) {
 		} else {
 			stable = 0
 		}
+		if n == 0 {
+			time.Sleep(time.Millisecond) // nobody waits for the clock
+			continue
+		}
 		time.Sleep(150 * time.Microsecond)
 	}
 }
